@@ -396,6 +396,35 @@ func runC20(r *core.Run) {
 			}
 			return q, inv.Hash
 		}
+		// NUT-20: the key a quote is locked to, sent in three spellings of the same point (compressed lower
+		// case, the same in upper case, uncompressed): the answer names the key as a compressed lower-case
+		// point, and the quote reads back with the same key
+		{
+			k, _ := btcec.NewPrivateKey()
+			comp := hex.EncodeToString(k.PubKey().SerializeCompressed())
+			for name, spelled := range map[string]string{"compressed": comp, "upper-case": strings.ToUpper(comp), "uncompressed": hex.EncodeToString(k.PubKey().SerializeUncompressed())} {
+				resp := c.do("POST", "/v1/mint/quote/bolt11", map[string]any{"amount": 5, "unit": "sat", "pubkey": spelled})
+				c.r.Eval("nut20-pubkey-spelling/"+name, true)
+				if resp.status != 200 {
+					if name == "compressed" {
+						c.bad("POST /v1/mint/quote/bolt11 (pubkey)", "a compressed lower-case key is refused", resp)
+					} else {
+						c.checkErrorBody("nut20-pubkey-"+name, resp)
+					}
+					continue
+				}
+				pk, _ := str(resp.obj, "pubkey")
+				if pk != comp {
+					c.r.Violate("shape:mint-quote-pubkey:"+name, fmt.Sprintf("the answer to a mint quote request locked to %s (%s spelling) names the key as %q, not as the compressed lower-case point %s", truncStr(spelled, 20), name, truncStr(pk, 140), comp), c.sig, nil)
+				}
+				q, _ := str(resp.obj, "quote")
+				if st := c.do("GET", "/v1/mint/quote/bolt11/"+q, nil); st.status == 200 {
+					if pk2, _ := str(st.obj, "pubkey"); pk2 != pk {
+						c.r.Violate("shape:mint-quote-pubkey-differs-on-read:"+name, fmt.Sprintf("POST answered pubkey %q, GET of the same quote %q", truncStr(pk, 140), truncStr(pk2, 140)), c.sig, nil)
+					}
+				}
+			}
+		}
 		outsJSON := func(outs []client.Output) []map[string]any {
 			var o []map[string]any
 			for _, x := range outs {
@@ -885,9 +914,56 @@ func (c *c20) faults(rng *rand.Rand, take func(int) cashu.Proofs, swapBody func(
 					env.Hub.SetController(nil)
 					c.judgeFault(e.name, mode, k, pf.first, res)
 				}
+				c.afterHeal(e.name, mode, k, m, p, b)
 			}
 		}
 		env.Hub.Unregister()
+	}
+}
+
+// afterHeal: the fault is gone; the client asks again. Whatever the interrupted request left behind, the
+// answers are in spec shape again: the identical request is answered 200 with well-formed signatures or
+// 400 with exactly {detail, code}, and the quote it names reads back with one of the state strings.
+func (c *c20) afterHeal(endpoint, mode string, k int, method, path string, body []byte) {
+	if endpoint != "mint" && endpoint != "swap" && endpoint != "melt" {
+		return
+	}
+	res := c06Send(c.env, method, path, body, "application/json")
+	what := fmt.Sprintf("%s re-sent after a %s fault at call %d", endpoint, mode, k)
+	c.r.Eval(fmt.Sprintf("fault/%s/%s/k%d/after-heal", endpoint, mode, k), true)
+	if res.panicked != "" || res.hang {
+		c.r.Violate("fault:"+endpoint+":after-heal:handler-died", fmt.Sprintf("%s: panic=%q hang=%v", what, truncStr(res.panicked, 200), res.hang), c.sig, nil)
+		return
+	}
+	resp := c20Resp{status: res.status, raw: res.body, obj: parseObj(res.body)}
+	switch res.status {
+	case 200:
+		if endpoint == "melt" {
+			c.checkMeltQuote(what, resp, "UNPAID", "PENDING", "PAID")
+		} else {
+			c.checkSignatures(what, resp, "signatures")
+			if arr, _ := resp.obj["signatures"].([]any); len(arr) == 0 {
+				c.bad(what, "answered 200 without signatures", resp)
+			}
+		}
+	case 400:
+		c.checkErrorBody(what, resp)
+	default:
+		c.r.Violate(fmt.Sprintf("fault:%s:after-heal:status-%d", endpoint, res.status), what+" answered "+truncStr(string(res.body), 200), c.sig, nil)
+	}
+	var rq struct {
+		Quote string `json:"quote"`
+	}
+	if json.Unmarshal(body, &rq) == nil && rq.Quote != "" {
+		if endpoint == "mint" {
+			if st := c.do("GET", "/v1/mint/quote/bolt11/"+rq.Quote, nil); st.status == 200 {
+				c.checkMintQuote("GET /v1/mint/quote/bolt11/{id} after "+what, st, "UNPAID", "PAID", "ISSUED", "PENDING")
+			}
+		} else if endpoint == "melt" {
+			if st := c.do("GET", "/v1/melt/quote/bolt11/"+rq.Quote, nil); st.status == 200 {
+				c.checkMeltQuote("GET /v1/melt/quote/bolt11/{id} after "+what, st, "UNPAID", "PENDING", "PAID")
+			}
+		}
 	}
 }
 
